@@ -872,9 +872,16 @@ def body_projective(case, ctx):
                       / np.linalg.norm(want), word=wstr(w))
     # derived representations of a wrapped representation stay wrapped and agree
     C = np.eye(n) + np.triu(np.ones((n, n)), 1)
-    pc = p.conjugate(projective.Transformation(C, column_vectors=True))
-    ctx.check(type(pc) is projective.ProjectiveRepresentation, "conjugate keeps the class")
     Ci = np.linalg.inv(C)
+    TC = projective.Transformation(C, column_vectors=True)
+    if len(case["words"]) % 2:
+        # the inverse handed over by the caller, as the pair diagonalize(return_inv=True)
+        # gives it: a Transformation like the conjugating map itself
+        ctx.label("conjugate-with-inv_mat-object")
+        pc = p.conjugate(TC, inv_mat=projective.Transformation(Ci, column_vectors=True))
+    else:
+        pc = p.conjugate(TC)
+    ctx.check(type(pc) is projective.ProjectiveRepresentation, "conjugate keeps the class")
     check_derived(ctx, case, L, pc, lambda M: Ci @ M @ C,
                   "wrapped conjugate(Transformation C)[w] = C^-1 rho(w) C",
                   extra_cond=cond_of(C) ** 2, extract=lambda T: np.asarray(T.matrix).T)
